@@ -663,6 +663,17 @@ class C03(AstKindProp):
             except Exception as e:
                 impl = {"raises": exc_kind(e)}
             res.append(("to_docstring", {"op": "to_docstring", "ir": c["ir"], "emit": edd, "indent_level": lvl, "emit_types": et, "emit_separating_tab": st}, impl))
+            # ... and the docstring half of the round trip: that text through inspect.cleandoc (what ast.get_docstring
+            # hands on) and the real parse.docstring, against FuncDoc.funcDocRT (to_docstring -> cleandoc -> ReST parser)
+            if "ok" in impl:
+                try:
+                    import inspect
+
+                    back = parse.docstring(inspect.cleandoc(impl["ok"]).replace(":cvar", ":param"))
+                    impl2 = {"ok": irutil.canon_ir(irutil.ir_to_json(back))}
+                except Exception as e:
+                    impl2 = {"raises": exc_kind(e)}
+                res.append(("func_doc_rt", {"op": "func_doc_rt", "ir": c["ir"], "emit": edd, "indent_level": lvl, "emit_types": et, "emit_separating_tab": st}, impl2))
         return res
 
     def canon_model(self, layer, op, ans):
@@ -671,6 +682,8 @@ class C03(AstKindProp):
             return {"ok": {"typ": _canon_type(o.get("typ")), "default": canon_val(o.get("default"))}}
         if layer == "to_docstring":
             return ans
+        if layer == "func_doc_rt":
+            return {"ok": irutil.canon_ir(ans["ok"])} if "ok" in ans else ans
         return AstKindProp.canon_model(self, layer, op, ans)
 
     def explain_kind(self, c):
